@@ -10,6 +10,8 @@ claimed = {
          "§5 C04"),
  "C08": ("SX", "Exhaustive exploration (deviation bound 2 quick / 3 thorough, happens-before state cache) of one execution under retry/hedge (+fallback, breaker, bulkhead, limiter) with exactly one cancellation source (context cancel, virtual deadline, ExecutionResult.Cancel, enclosing Timeout) placed before the first attempt, inside attempts, at attempt ends, inside delays and at delay ends; cause of the returned error, number of late attempts, promptness (virtual completion instant = cancellation instant) and fallback suppression are checked on every schedule.",
          "§5 C08"),
+ "C09": ("SX", "Exhaustive exploration (deviation bound 1 quick / 2 thorough, happens-before state cache) of the real hedge executor and its attempt threads over every assignment of durations {0, D, 3D, until cancelled} (thorough adds D-1, D+1) and outcomes to the attempts for maxHedges 1 and 2, four cancel-condition configurations, and placements inside retry/timeout/fallback; the hedge layer contract (attempt count, spacing, acceptance instant, winner/loser cancellation sampled at the moment of return, Hedges/Attempts) is evaluated on the probe log of every schedule.",
+         "§5 C09"),
 }
 na = {}
 props = [json.loads(l) for l in open('/verif/properties.jsonl')]
